@@ -115,6 +115,11 @@ func (g *gen) config() (string, string, uint, []keyCap, fault) {
 			key = 9999 // an unlisted key
 		}
 		flt = fault{kind, r.Intn(7), key, uint(1 + r.Intn(3))}
+		if r.Intn(4) == 0 {
+			// not a fault at all: a sum-preserving custom divider that parks 1..2 units of one
+			// priority under a spare key on every call but the first
+			flt = fault{"park", 9000 + r.Intn(3), pick(r, ps), uint(1 + r.Intn(2))}
+		}
 	}
 	return ver, div, H, keys, flt
 }
